@@ -691,6 +691,11 @@ pub fn gen_wrep(rng: &mut Rng) -> RawCase {
     let jumps = rng.chance(1, 6);
     let mut skipped_dim = false;
     let n = 3 + rng.below(16);
+    if rng.chance(1, 40) {
+        // a whole array by value for an array parameter of another element type: for the
+        // checker to refuse (the generator cannot convert arrays)
+        l.push(rng.pick(&["Sb5 (A1%())", "Sb5 (D1#())", "Sb5 (PA())"]).to_string());
+    }
     for _ in 0..n {
         let i1 = *rng.pick(&ie);
         let i2 = *rng.pick(&ie);
@@ -760,7 +765,13 @@ pub fn gen_wrep(rng: &mut Rng) -> RawCase {
             // assignment to something that is not a variable: for the checker to refuse
             41 => format!("{} = {}", rng.pick(&["MID$(T$, 2, 1)", "LEFT$(T$, 1)", "UBOUND(A1%)", "LEN(T$)"]), s1),
             // the store-back of the second argument fails after the SUB changed the index
-            42 => format!("Sb4 I%, A1%(I%)\nSb1 {}, T$, 1\n{} = LEFT$(T$, 1)", v, w),
+            42 => {
+                if rng.chance(1, 2) {
+                    format!("GS% = 1\n{} = Fn6%(A1%(GS%)) + Fn1%(2)", v)
+                } else {
+                    format!("Sb4 I%, A1%(I%)\nSb1 {}, T$, 1\n{} = LEFT$(T$, 1)", v, w)
+                }
+            }
             // a record whose DIM is jumped over
             43 if !skipped_dim => {
                 skipped_dim = true;
@@ -814,6 +825,9 @@ pub fn gen_wrep(rng: &mut Rng) -> RawCase {
     l.push("FUNCTION Fn3$ (B$)\nFn3$ = B$ + B$\nEND FUNCTION".into());
     l.push("FUNCTION Fn4% (A%, B%)\nA% = A% + 1\nFn4% = A% + B%\nEND FUNCTION".into());
     l.push("SUB Sb4 (P%, Q%)\nP% = 10\nEND SUB".into());
+    l.push("SUB Sb5 (X!())\nEND SUB".into());
+    // moves the SHARED index: the store-back of A1%(GS%) fails after the function returned
+    l.push("FUNCTION Fn6% (N%)\nGS% = 10\nFn6% = 7\nEND FUNCTION".into());
     // a function with a statement that fails every time it is called (a handler goes on
     // behind it): as the index of an element passed by reference it is evaluated again
     // when the element is stored back, i.e. it fails while its caller's result waits
